@@ -147,10 +147,10 @@ theorem nominated_not_via {fs : List (Bytes × Bytes)} {g0 : GoReq}
   exact absurd this (by simp)
 
 /-- Unless a Connection option nominates it, the Via field reaches the Via modifier exactly as the
-    client sent it (as far as `Header.Get` can see: its first line). -/
+    client sent it: every field line, in order. -/
 theorem preVia_via {cfg : Cfg} {ctx : Ctx} {r : Request} {p : PreVia}
     (h : preVia cfg ctx r = .ok p) (hn : viaNominated r.fields = false) :
-    goGet p.h3 viaName = firstVia r.fields ∧ ViaInv p.h3 ∧ p.g.minor = r.minor := by
+    viaChainOf p.h3 = viaChain (viaLines r.fields) ∧ ViaInv p.h3 ∧ p.g.minor = r.minor := by
   obtain ⟨g0, hr, hminor, hreach⟩ := preVia_ok h
   have hc : hget g0.header (bs "Connection") = hget (toHeader r.fields) (bs "Connection") := by
     unfold hget
@@ -161,9 +161,10 @@ theorem preVia_via {cfg : Cfg} {ctx : Ctx} {r : Request} {p : PreVia}
     · exact nominated_not_via hc hn n hm
     · exact fixedNames_not_via n hm
   refine ⟨?_, hreach.viaInv (toHeader_viaInv _), hminor⟩
-  rw [← goGet_toHeader_via]
-  unfold goGet hget
-  rw [viaName_canon, hreach.get_eq hk]
+  rw [← hget_toHeader_via]
+  show joinWith (bs ", ") (hget p.h3 viaName) = joinWith (bs ", ") (hget (toHeader r.fields) viaName)
+  unfold hget
+  rw [hreach.get_eq hk]
 
 end C18
 end FwdVerif
